@@ -15,7 +15,9 @@
    The declarative (XPath style) semantics [holds] / [sem_path] is at the end
    of the file.  *)
 From Coq Require Import List NArith Bool Arith.
+Require Import BobV.Gen.ConstsC18.
 Import ListNotations.
+Local Open Scope nat_scope.
 
 Definition str := list N.
 Definition node := nat.
@@ -591,6 +593,72 @@ Fixpoint real_path (n : node) (stack : list node) (m : node) : Prop :=
 
 End Eval.
 
+(* ================================================================== strict reading of
+   "a result is reported with a path that passes through the intermediate
+   steps of the query": the reported stack itself decomposes along the steps
+   (every step is realised by consecutive edges of the stack).  Executable
+   checker; the implementation does not guarantee it (known finding F30,
+   Properties.v: result_paths_through_steps_refuted). *)
+Section Witness.
+Variable g : graph.
+Variable sv : sexpr -> node -> str.
+
+(* all ways to cut a list into a prefix and the rest *)
+Fixpoint splits (l : list node) : list (list node * list node) :=
+  ([], l) :: match l with
+             | [] => []
+             | x :: r => map (fun p => (x :: fst p, snd p)) (splits r)
+             end.
+
+(* follow the stack from x along allowed edges; the node where it ends *)
+Fixpoint walk_end (ind : bool) (x : node) (s : list node) : option node :=
+  match s with
+  | [] => Some x
+  | c :: r => if memb c (kids_f g ind x) then walk_end ind c r else None
+  end.
+
+Definition axis_walk (a : axis) (x : node) (s : list node) : option node :=
+  match a with
+  | ASelf => match s with [] => Some x | _ => None end
+  | AChild => match s with [_] => walk_end true x s | _ => None end
+  | ADChild => match s with [_] => walk_end false x s | _ => None end
+  | ADesc => match s with [] => None | _ => walk_end true x s end
+  | ADDesc => match s with [] => None | _ => walk_end false x s end
+  | ADescSelf => walk_end true x s
+  | ADDescSelf => walk_end false x s
+  end.
+
+(* [witness_b q n stk]: the stack (nodes below n) is a path from n that
+   decomposes along the steps of q *)
+Fixpoint witness_b (q : path) (n : node) (stk : list node) : bool :=
+  match q with
+  | PNil => is_empty stk
+  | PCons dsl a t pr rest =>
+      existsb (fun p0 =>
+        (dsl || is_empty (fst p0)) &&
+        match walk_end true n (fst p0) with
+        | None => false
+        | Some x =>
+            existsb (fun p1 =>
+              match axis_walk a x (fst p1) with
+              | None => false
+              | Some y =>
+                  test_match t (name g y) &&
+                  (is_pnone pr || memb y (pred_back g sv pr)) &&
+                  witness_b rest y (snd p1)
+              end) (splits (snd p0))
+        end) (splits stk)
+  end.
+
+(* all paths (stacks) that start at n, up to the given length *)
+Fixpoint paths_from (fuel : nat) (n : node) : list (list node) :=
+  match fuel with
+  | 0 => [[]]
+  | S f => [] :: flat_map (fun c => map (cons c) (paths_from f c)) (map fst (kids g n))
+  end.
+
+End Witness.
+
 (* well-formed graph: nodes are numbered topologically and the root exists *)
 Definition wf_graph (g : graph) : Prop :=
   0 < length g /\
@@ -609,3 +677,21 @@ Fixpoint simple_path (q : path) : bool :=
   | PCons dsl a t pr rest =>
       negb dsl && simple_axis a && negb (mem_N ch_star t) && is_pnone pr && simple_path rest
   end.
+
+(* names of the axes as the implementation spells them; Properties.v checks
+   them against the tables regenerated from pathspec.py (Gen/ConstsC18.v) *)
+Definition all_axes : list axis := [AChild; ADesc; ADescSelf; ADChild; ADDesc; ADDescSelf; ASelf].
+Definition axis_name (a : axis) : str :=
+  match a with
+  | AChild => [99;104;105;108;100]
+  | ADesc => [100;101;115;99;101;110;100;97;110;116]
+  | ADescSelf => [100;101;115;99;101;110;100;97;110;116;45;111;114;45;115;101;108;102]
+  | ADChild => [100;105;114;101;99;116;45;99;104;105;108;100]
+  | ADDesc => [100;105;114;101;99;116;45;100;101;115;99;101;110;100;97;110;116]
+  | ADDescSelf => [100;105;114;101;99;116;45;100;101;115;99;101;110;100;97;110;116;45;111;114;45;115;101;108;102]
+  | ASelf => [115;101;108;102]
+  end%N.
+Fixpoint str_mem (s : str) (l : list str) : bool :=
+  match l with [] => false | x :: r => str_eqb s x || str_mem s r end.
+Definition same_strs (a b : list str) : bool :=
+  forallb (fun x => str_mem x b) a && forallb (fun x => str_mem x a) b && Nat.eqb (length a) (length b).
